@@ -67,7 +67,8 @@ def check(model, rep, tier):
     rep.check(o, 'SETSEL', '%s:state⊇%s' % (fi.site, name),
               'the state tuple misses %s' % what, {'counterexample': cex},
               line=fi.node.lineno, witness=wit)
-  ok = len(sup) == 1
+  # the support condition must be about liveness *into* the statement
+  ok = sup == ['ALL[· ∈ LIVE_IN]']
   cex = None
   if ok:
     ok, cex = implies(M & C & atom(sup[0]), state.f)
